@@ -119,6 +119,10 @@ func (d *stubDesc) genCases(g *Rng, perDesc int) {
 			if forcedErr >= 0 {
 				e = t.Errors[forcedErr]
 				c.flags = 0
+			} else if c.flags == 0 && g.Chance(1, 3) {
+				// a `more` call that ends in an error while Call.Continues is still set (as it is after streamed
+				// replies): the error reply is a final one
+				c.flags = 1
 			}
 			c.errName = e.Name
 			for _, f := range errFields(e) {
@@ -565,6 +569,9 @@ func (d *stubDesc) driverSource() string {
 				args := d.lits(errFields(e), c.errVals)
 				if args != "" {
 					args = ", " + args
+				}
+				if c.flags == 1 {
+					body.WriteString("\t\t\tcall.Continues = true\n")
 				}
 				fmt.Fprintf(&body, "\t\t\treturn call.Reply%s(ctx%s)\n", c.errName, args)
 			} else {
